@@ -274,5 +274,118 @@ theorem reassoc_order_independent_run {ordf : List World → List World} {G : MG
   obtain ⟨hn, hk⟩ := cg_keys_keyLike hord hG hdl hbl O C hinv hne hcg
   exact reassoc_order_independent π hπ nev O C hn hk
 
+/-! ### the whole recursion -/
+
+theorem subsetOrder_sorted_perm (π : List Var → List Var) (hπ : ∀ l, (π l).Perm l) :
+    SubsetOrder (fun l => orderDistrict false (π l)) := by
+  intro d x hx
+  have h1 : x ∈ π d := by
+    simp only [orderDistrict, Bool.false_eq_true, if_false] at hx
+    exact (mem_sortBy Var.keyLt x (π d)).1 hx
+  exact (hπ d).mem_iff.1 h1
+
+theorem reassoc_nil (kordf : List Var → List Var) (new : Event) : newOutcomesAndConditions kordf new [] [] = ([], []) := by
+  simp [newOutcomesAndConditions, remainingAndMissing]
+
+/-- **the whole line-4 recursion of IDC\* is independent of the iteration order of the Python set** (after `fix:` b76144c), on
+every input of `idcstar_terminates_shared_names`: for every `π` that returns a permutation of its argument, every fuel -/
+theorem idcStarO_order_independent {ordf : List World → List World} {dordf : List Var → List Var} {G : MG Name}
+    (hord : PermOrder ordf) (hG : G.WF) (hdl : ∀ e ∈ G.di, e.1 ≠ e.2) (hbl : ∀ e ∈ G.bi, e.1 ≠ e.2)
+    (π : List Var → List Var) (hπ : ∀ l, (π l).Perm l) :
+    ∀ (fuel : Nat) (O C : Event), IdcInv G O C →
+      idcStarO ordf dordf (fun l => orderDistrict false (π l)) G fuel O C =
+        idcStarO ordf dordf (orderDistrict false) G fuel O C := by
+  intro fuel
+  induction fuel with
+  | zero => intro O C _; rfl
+  | succ n ih =>
+    intro O C hinv
+    -- the re-association of this level is the same under both orders
+    have hre : ∀ cf nev, makeCounterfactualGraph ordf G (Event.ofList (O ++ C)) = .ok (cf, some nev) →
+        newOutcomesAndConditions (fun l => orderDistrict false (π l)) nev O C =
+          newOutcomesAndConditions (orderDistrict false) nev O C := by
+      intro cf nev hcg
+      by_cases hne : Event.ofList (O ++ C) = []
+      · have hO : O = [] := by
+          cases O with
+          | nil => rfl
+          | cons p ps =>
+            have : p.1 ∈ (Event.ofList ((p :: ps) ++ C)).keys :=
+              (mem_keys_ofList_append (p :: ps) C p.1).2 (Or.inl (by simp [Event.keys]))
+            rw [hne] at this
+            cases this
+        have hC : C = [] := by
+          cases C with
+          | nil => rfl
+          | cons p ps =>
+            have : p.1 ∈ (Event.ofList (O ++ (p :: ps))).keys :=
+              (mem_keys_ofList_append O (p :: ps) p.1).2 (Or.inr (by simp [Event.keys]))
+            rw [hne] at this
+            cases this
+        subst hO; subst hC
+        rw [reassoc_nil, reassoc_nil]
+      · exact reassoc_order_independent_run hord hG hdl hbl O C hinv hne hcg π hπ
+    rw [idcStarO, idcStarO]
+    cases h1 : line1 (idStar ordf dordf G C) with
+    | error err => rfl
+    | ok u =>
+      simp only
+      cases hcg : makeCounterfactualGraph ordf G (Event.ofList (O ++ C)) with
+      | error err => rfl
+      | ok v =>
+        rcases v with ⟨cf, new⟩
+        cases new with
+        | none => rfl
+        | some nev =>
+          simp only
+          rw [hre cf nev hcg]
+          cases hf : firstExchangeable cf (newOutcomesAndConditions (orderDistrict false) nev O C).fst.keys
+              (newOutcomesAndConditions (orderDistrict false) nev O C).snd.keys with
+          | error err => rfl
+          | ok oc =>
+            cases oc with
+            | none => rfl
+            | some c =>
+              simp only
+              cases hg : (newOutcomesAndConditions (orderDistrict false) nev O C).snd.get? c with
+              | none => rfl
+              | some val =>
+                simp only
+                cases hx : exchangeOutcomes cf (newOutcomesAndConditions (orderDistrict false) nev O C).fst c val with
+                | error err => rfl
+                | ok no' =>
+                  simp only
+                  apply ih
+                  -- the invariant of the next level, from the step lemma (for the sorted order)
+                  rcases idcStarO_step ordf dordf (orderDistrict false) G (subsetOrder_orderDistrict false) hord hG hdl hbl O C hinv
+                    with hdone | ⟨O', C', hinv', _, ⟨cf2, nev2, c2, val2, hcg2, hf2, hg2, hx2, hC'⟩, _⟩
+                  · -- impossible: with one unit of fuel this branch runs out of fuel
+                    have h0 := hdone 0
+                    rw [idcStarO, h1] at h0
+                    simp only at h0
+                    rw [hcg] at h0
+                    simp only at h0
+                    rw [hf] at h0
+                    simp only at h0
+                    rw [hg] at h0
+                    simp only at h0
+                    rw [hx] at h0
+                    simp only [idcStarO] at h0
+                    cases h0
+                  · rw [hcg] at hcg2
+                    simp only [Except.ok.injEq, Prod.mk.injEq, Option.some.injEq] at hcg2
+                    obtain ⟨rfl, rfl⟩ := hcg2
+                    rw [hf] at hf2
+                    simp only [Except.ok.injEq, Option.some.injEq] at hf2
+                    subst hf2
+                    rw [hg] at hg2
+                    simp only [Option.some.injEq] at hg2
+                    subst hg2
+                    rw [hx] at hx2
+                    simp only [Except.ok.injEq] at hx2
+                    subst hx2
+                    rw [hC'] at hinv'
+                    exact hinv'
+
 end Cf
 end Y0
